@@ -444,6 +444,8 @@ class Interp:
         self.max_steps = 400000
         self.live_gens = []
         self.gen_stack = []
+        self.ctx_choices = {}
+        self.ctx_ticks = {}
         self.dead = False
         program.restore_static()
         self.chooser.cleanups.append(self.finish)
@@ -480,6 +482,8 @@ class Interp:
         self.trace.append(ev)
         if name == "hal.waitForNotifierAlarm":
             self.ticks += 1
+            for k in [None] + [g.uid for g in self.gen_stack]:
+                self.ctx_ticks[k] = self.ctx_ticks.get(k, 0) + 1  # pacing points passed by this context (and what it called)
         if self.hooks is not None and hasattr(self.hooks, "on_event"):
             self.hooks.on_event(self, ev)
         return ev
@@ -493,7 +497,15 @@ class Interp:
             return 0
         if self.load_mode:
             raise Unsupported(f"choice during module load: {label}")
+        k = self.gen_stack[-1].uid if self.gen_stack else None
+        self.ctx_choices[k] = self.ctx_choices.get(k, 0) + 1  # choices made by this generator body / by the plain call stack
         return self.chooser.choose(n, label)
+
+    def own_ticks(self):
+        return self.ctx_ticks.get(self.gen_stack[-1].uid if self.gen_stack else None, 0)
+
+    def own_choices(self):
+        return self.ctx_choices.get(self.gen_stack[-1].uid if self.gen_stack else None, 0)
 
     def decide(self, atom, node=None, label=None):
         """Truth value of an atom on this path (chosen once, then remembered)."""
@@ -1061,23 +1073,23 @@ class Interp:
         self.emit("loop_begin", "while", node=s)
         broke = False
         total = 0
-        ticks = self.ticks
+        ticks = self.own_ticks()
         forked = 0
-        c_body = len(self.chooser.log)
+        c_body = self.own_choices()
         while True:
-            c0 = len(self.chooser.log)
+            c0 = self.own_choices()
             if c0 != c_body:
                 forked += 1  # the previous iteration's body needed a choice (e.g. `if <unknown>: break`)
             if not self.truth(self.eval(s.test, fr), s.test):
                 break
             # iterations count towards the bound when the loop test needed a choice, or when the previous
             # iteration passed a pacing point (NotifierDelay wait): loops over known data run to their end
-            symbolic = len(self.chooser.log) != c0 or (total > 0 and self.ticks != ticks)
-            ticks = self.ticks
+            symbolic = self.own_choices() != c0 or (total > 0 and self.own_ticks() != ticks)
+            ticks = self.own_ticks()
             total += 1
             if symbolic:
                 n += 1
-            c_body = len(self.chooser.log)
+            c_body = self.own_choices()
             # (a loop whose continuation is decided by choices in its body doubles the paths per iteration: 6 at most)
             if n > self.MAX_WHILE or total > 4096 or forked > 6:
                 self.truncated.append(("while", self.site(s)))
